@@ -43,6 +43,15 @@ def gen(rng, tier):
         for nd in spec["nodes"]:
             nd["demand"] = "0"
         spec["cap"], spec["init"] = "100", "50"
+        if rng.random() < 0.3:
+            # a depot that opens late: every formulation must start the clock there
+            for nd in spec["nodes"][1:]:
+                if nd["hi"] == "inf" and rng.random() < 0.7:
+                    nd["hi"] = fs(Fraction(nd["lo"]) + rng.randint(1, 3))
+            his = [Fraction(nd["hi"]) for nd in spec["nodes"][1:] if nd["hi"] != "inf"]
+            spec["nodes"][0]["lo"] = fs(rng.choice(his) - rng.choice([0, 0, 1])) if his and rng.random() < 0.8 else rng.choice(["1", "2"])
+            if Fraction(spec["nodes"][0]["lo"]) < 0:
+                spec["nodes"][0]["lo"] = "0"
         # construction route: a finished VRPTW handed to the formulations, or the graph assembled through the path-based object's own
         # add_node / add_arc / set_depot with the depot named late and routes offered by name (the result must not depend on it)
         if rng.random() < 0.35:
@@ -91,9 +100,11 @@ def run_case(case, drv):
     ncust = N - 1
     # ---------------- reference: all valid routes, best partition
     routes = []
+    candidates = []       # every depot-to-depot sequence of distinct customers is OFFERED to the path-based object; it decides itself
     for k in range(1, ncust + 1):
         for perm in itertools.permutations(range(1, N), k):
             r = [0] + list(perm) + [0]
+            candidates.append(r)
             ok, cost = valid_route(g, r)
             if ok:
                 routes.append((frozenset(perm), cost, r))
@@ -122,12 +133,12 @@ def run_case(case, drv):
         for a in spec["arcs"][kb:]:
             pb.add_arc(a[0], a[1], VU.val(a[2]), VU.val(a[3]))
         names = [nd[0] for nd in g["nodes"]]
-        for _, _, r in routes:
+        for r in candidates:
             pb.add_route([names[i] for i in r])
         v = pb.vrptw     # the other formulations are built from the graph assembled this way
     else:
         pb = PathBasedRoutingProblem(v)
-        for _, _, r in routes:
+        for r in candidates:
             pb.add_route(list(r))
     sp = constrained_opt(pb)
     # ---------------- arc on the complete integer grid
